@@ -124,11 +124,18 @@ Qed.
 Lemma sg_none sel es : (forall e, In e es -> sel e = None) -> sg sel es [] = [].
 Proof. unfold sg. induction es as [|e es IH]; intros H; cbn; [reflexivity|]. rewrite (H e (or_introl eq_refl)). apply IH. intros e0 H0. apply H. right. exact H0. Qed.
 
+Lemma ordfree_atoms (t : bool) l : forallb is_atom l = true -> ordfree (sroot t l) = true.
+Proof.
+  intros H. assert (forallb ordfree l = true).
+  { apply forallb_forall. intros x Hx. eapply forallb_forall in H; [|exact Hx]. destruct x; try discriminate. reflexivity. }
+  destruct t; exact H0.
+Qed.
+
 Lemma seq_positional_good tup xs ys es T1 T2 :
   (forall e, In e es -> pos_entry xs ys 0 e) -> NoDup (map eidx es) ->
   (forall j, j < length xs -> In j (map eidx es) \/ nth_error xs j = nth_error ys j) ->
   length xs = length ys -> forallb is_atom ys = true ->
-  GoodD conv bidir (to_delta conv bidir always ops T1 T2 (mutual es) []) (length q) (sroot tup xs) (sroot tup ys).
+  GoodD0 conv bidir (to_delta conv bidir always ops T1 T2 (mutual es) []) (length q) (sroot tup xs) (sroot tup ys).
 Proof.
   intros HP ND HC L Ay.
   assert (K : forall e, In e es -> ekind e = KValue \/ ekind e = KType) by (intros e He; apply HP; exact He).
@@ -167,6 +174,7 @@ Theorem Good_tuple_zip xs ys :
 Proof.
   intros Z Ax Ay L T1 T2 _ _. unfold D, E. rewrite diff_tuple by reflexivity. unfold seq_body. rewrite Z. cbn [negb andb].
   fold (GLa 0 xs ys). destruct (GL_atoms xs ys 0 Ax Ay L) as (S0 & HP & ND & HC). rewrite S0.
+  apply GoodD0_exact; [exact (ordfree_atoms true xs Ax)|].
   apply (seq_positional_good true xs ys _ T1 T2 HP ND HC L Ay).
 Qed.
 
